@@ -419,6 +419,101 @@ def check_coercion_identity(prog: Program, rep, rule: str) -> None:
                  'preferred-unit setting in the last bits')
 
 
+def check_number_handoff(prog: Program, rep, rule: str) -> None:
+    """Inside the package, a parameter that the callee reads through ``PreferredUnits.<slot>(p)`` must not be handed a
+    plain number that the caller extracted in a fixed unit (``q >> Weight.Grain``, ``.raw_value``, arithmetic on such):
+    the callee re-reads it in whatever unit is preferred.  Call sites are resolved by name (module functions,
+    constructors, self.method); arguments that are the caller's own parameters or quantities are fine."""
+    slots = set(C.pref_slots(prog))
+    coerce: Dict[Tuple[str, str], str] = {}
+    for f in prog.all_funcs():
+        if f.module.name in PRESENTATION_MODULES:
+            continue
+        params = set(f.params)
+        for n in ast.walk(f.node):
+            if isinstance(n, ast.Call) and isinstance(n.func, ast.Attribute) and isinstance(n.func.value, ast.Name) \
+                    and n.func.value.id == 'PreferredUnits' and n.func.attr in slots and len(n.args) == 1:
+                for nm in ast.walk(n.args[0]):
+                    if isinstance(nm, ast.Name) and nm.id in params:
+                        coerce.setdefault((f.fq, nm.id), n.func.attr)
+
+    def assigned_values(f: Func, name: str) -> List[ast.AST]:
+        out = []
+        for n in ast.walk(f.node):
+            if isinstance(n, ast.Assign) and any(isinstance(t, ast.Name) and t.id == name for t in n.targets):
+                out.append(n.value)
+            elif isinstance(n, ast.AnnAssign) and isinstance(n.target, ast.Name) and n.target.id == name and n.value is not None:
+                out.append(n.value)
+            elif isinstance(n, ast.NamedExpr) and n.target.id == name:
+                out.append(n.value)
+            elif isinstance(n, ast.AugAssign) and isinstance(n.target, ast.Name) and n.target.id == name:
+                out.append(None)
+        return out
+
+    def number_in_fixed_unit(e: ast.AST, f: Func, depth: int = 0) -> Optional[str]:
+        if isinstance(e, ast.BinOp) and isinstance(e.op, ast.RShift):
+            return f'`{norm(e)[:50]}`'
+        if isinstance(e, ast.Call) and isinstance(e.func, ast.Attribute) and e.func.attr == 'get_in':
+            return f'`{norm(e)[:50]}`'
+        if isinstance(e, ast.Attribute) and e.attr in ('raw_value', 'unit_value'):
+            return f'`{norm(e)[:50]}`'
+        if isinstance(e, ast.Call) and isinstance(e.func, ast.Name) and e.func.id in ('float', 'abs', 'round', 'int') and e.args:
+            return number_in_fixed_unit(e.args[0], f, depth)
+        if isinstance(e, ast.BinOp) and isinstance(e.op, (ast.Add, ast.Sub, ast.Mult, ast.Div)):
+            return number_in_fixed_unit(e.left, f, depth) or number_in_fixed_unit(e.right, f, depth)
+        if isinstance(e, ast.UnaryOp):
+            return number_in_fixed_unit(e.operand, f, depth)
+        if isinstance(e, ast.Constant) and isinstance(e.value, (int, float)) and not isinstance(e.value, bool) and e.value != 0:
+            return f'the constant {e.value!r}'
+        if isinstance(e, ast.Name) and depth < 3 and e.id not in f.params:
+            vals = assigned_values(f, e.id)
+            if vals and all(v is not None for v in vals):
+                why = [number_in_fixed_unit(v, f, depth + 1) for v in vals]
+                if all(why):
+                    return f'`{e.id}` = {why[0]}'
+        return None
+
+    n_sites = 0
+    for f in prog.all_funcs():
+        if f.module.name in PRESENTATION_MODULES:
+            continue
+        for n in ast.walk(f.node):
+            if not isinstance(n, ast.Call):
+                continue
+            callee = None
+            if isinstance(n.func, ast.Name):
+                r = prog.resolve(f.module, n.func.id)
+                if r and r[0] == 'func':
+                    callee = r[1]
+                elif r and r[0] == 'class':
+                    callee = prog.find_method(r[1], '__init__')
+            elif isinstance(n.func, ast.Attribute) and isinstance(n.func.value, ast.Name) and n.func.value.id in ('self', 'cls') \
+                    and f.cls is not None:
+                callee = prog.find_method(f.cls, n.func.attr)
+            if callee is None:
+                continue
+            pos = [p_ for p_ in callee.positional]
+            if callee.cls is not None and pos and not getattr(callee, 'is_staticmethod', False):
+                pos = pos[1:]
+            bound = dict(zip(pos, n.args))
+            bound.update({k.arg: k.value for k in n.keywords if k.arg})
+            for pname, arg in bound.items():
+                slot = coerce.get((callee.fq, pname))
+                if slot is None or isinstance(arg, ast.Starred):
+                    continue
+                n_sites += 1
+                why = number_in_fixed_unit(arg, f)
+                if why:
+                    rep.fail(rule, f.module.path, n.lineno, f.qualname, f'handoff:{callee.qualname}.{pname}',
+                             f'{f.qualname} passes {why} - a plain number in a fixed unit - to `{pname}` of {callee.qualname}, '
+                             f'which reads bare numbers in PreferredUnits.{slot}: the value changes with the preference '
+                             f'although the caller\'s input carried explicit units')
+                else:
+                    rep.ok(rule, f.module.where(n), f'{f.qualname} -> {callee.qualname}({pname}=...): not a number in a fixed unit')
+    rep.extra['internal_handoffs_to_coercing_parameters'] = n_sites
+    rep.extra['coercing_parameters'] = len(coerce)
+
+
 def run(prog: Program, rep, thorough: bool) -> None:
     rep.rule('C07.R1', 'no truthiness test on a float-or-quantity parameter', 12)
     rep.rule('C07.R2', 'slot of the right dimension and name at every coercion and in every preset', 30 + 6)
@@ -434,6 +529,8 @@ def run(prog: Program, rep, thorough: bool) -> None:
     check_slots(prog, rep, 'C07.R2')
     check_no_leak(prog, rep, 'C07.R3')
     check_coercion_identity(prog, rep, 'C07.R3')
+    rep.rule('C07.R4', 'no plain number in a fixed unit is handed to a parameter that reads bare numbers in a preferred unit', 3)
+    check_number_handoff(prog, rep, 'C07.R4')
 
 
 CON = 'py_ballisticcalc/conditions.py'
@@ -452,6 +549,7 @@ VARIANTS = [
     Variant('wind-until-or-default', 'break', [(CON, 'Distance.Foot(self.MAX_DISTANCE_FEET) if until_distance is None else until_distance', 'until_distance or Distance.Foot(self.MAX_DISTANCE_FEET)')], 'C07.R1', 'the defect repaired by e2838cb', 'pass'),
     Variant('danger-space-distance-slot', 'break', [(TD, 'PreferredUnits.target_height(target_height)', 'PreferredUnits.distance(target_height)')], 'C07.R2', 'the defect repaired by cd2aa9f', 'pass'),
     Variant('ammo-default-powder-temp-bare', 'break', [(MUN, 'PreferredUnits.temperature(Temperature.Celsius(15) if powder_temp is None else powder_temp)', 'PreferredUnits.temperature(59.0 if powder_temp is None else powder_temp)')], 'C07.R2', 'the default follows the temperature preference (59 C, 59 K)'),
+    Variant('multibc-hands-floats-to-dragmodel', 'break', [('py_ballisticcalc/drag_model.py', '    return DragModel(bc, drag_table, weight, diameter, length)', '    return DragModel(bc, drag_table, weight >> Weight.Grain, diameter >> Distance.Inch, length)')], 'C07.R4', 'seeded change C07/5'),
     Variant('twin-or-zero-float', 'twin', [(CON, 'PreferredUnits.angular(look_angle or 0)', 'PreferredUnits.angular(look_angle or 0.0)')], None),
     Variant('twin-is-none-form', 'twin', [(CON, 'PreferredUnits.angular(relative_angle or 0)', 'PreferredUnits.angular(0 if relative_angle is None else relative_angle)')], None),
 ]
